@@ -4,7 +4,8 @@
 From Coq Require Import List NArith ZArith Bool.
 From Delb.Base Require Import PyStr.
 From Delb.Gen Require Import GenWrap.
-From Delb.Ws Require Import WrapFacts.
+From Delb.Tree Require Import ATree.
+From Delb.Ws Require Import WrapFacts Wrap WrapOneLine.
 Import ListNotations.
 
 (* for every text and every width >= 1 the generator terminates and yields lines that satisfy the greedy
@@ -72,3 +73,20 @@ Theorem C19_text_lines_indented_any : forall ind width req, (1 <= width)%Z ->
     = flat_map (fun l => eff_indent ind (w_pres st) L ++ l ++ NL) ls.
 Proof. exact text_only_lines_str_lf. Qed.
 Print Assumptions C19_text_lines_indented_any.
+
+(* open finding C19-oneline-boundary-whitespace, on the model of the whole serializer (Ws/Wrap.v): for the
+   un-reduced text "ccc\n" below <d0><p>, width 10, indentation " ", the output has the line " <p>ccc </p>" whose
+   content is 11 characters long and contains a space.  The statements above are about the text lines of the
+   multi-line form; the one-line form is covered by the byte-for-byte correspondence and the direct search. *)
+Theorem C19_oneline_boundary_refuted :
+  exists pre post,
+    wrap_str [SP] false 10%Z c19_oneline_witness [] = pre ++ LF :: SP :: c19_oneline_line ++ LF :: post
+    /\ (length c19_oneline_line > 10)%nat /\ In SP c19_oneline_line /\ ~ In LF c19_oneline_line.
+Proof. exact oneline_boundary_refuted. Qed.
+Print Assumptions C19_oneline_boundary_refuted.
+
+Example C19_oneline_reduced_fits :
+  wrap_str [SP] false 10%Z (Tag [] [100; 48]%N [] [Tag [] [112]%N [] [Text [99; 99; 99]%N]]) []
+  = [60; 100; 48; 62]%N ++ LF :: SP :: [60; 112; 62; 99; 99; 99; 60; 47; 112; 62]%N ++ LF :: [60; 47; 100; 48; 62]%N.
+Proof. exact oneline_reduced_fits. Qed.
+Print Assumptions C19_oneline_reduced_fits.
